@@ -195,6 +195,11 @@ func (round *round3) Start() *tss.Error {
 	// PRINT public key & private share
 	common.Logger.Debugf("%s public key: %x", round.PartyID(), eddsaPubKey)
 
+	// this is the final round: nothing more is awaited, so that the party leaves it once it has finished
+	for j := range round.ok {
+		round.ok[j] = true
+	}
+
 	round.end <- round.save
 	return nil
 }
